@@ -340,6 +340,26 @@ theorem hasLiveNulls_iff (c : SegCol) (hlen : c.keys.length = c.alive.length) (h
       rw [liveDocs_no_deletes _ _ hlen hd']
       exact hex
 
+/-- the repaired scan is exact for EVERY cardinality -/
+theorem hasLiveNullsFixed_iff (c : SegCol) (hlen : c.keys.length = c.alive.length) (hcard : CardOk c) :
+    hasLiveNullsFixed c.card c.keys c.alive = true ↔ ∃ k ∈ c.liveKeys, k = none := by
+  cases hc : c.card with
+  | multivalued =>
+    simp only [hasLiveNullsFixed, SegCol.liveKeys, List.any_eq_true]
+    constructor
+    · rintro ⟨k, hk, hn⟩
+      exact ⟨k, hk, by cases k <;> simp_all⟩
+    · rintro ⟨k, hk, rfl⟩
+      exact ⟨none, hk, rfl⟩
+  | full =>
+    have h := hasLiveNulls_iff c hlen hcard (by rw [hc]; decide)
+    rw [hc] at h
+    simpa [hasLiveNullsFixed, hasLiveNulls] using h
+  | optional =>
+    have h := hasLiveNulls_iff c hlen hcard (by rw [hc]; decide)
+    rw [hc] at h
+    simpa [hasLiveNullsFixed, hasLiveNulls] using h
+
 theorem any_false_forall {α} (l : List α) (p : α → Bool) (h : l.any p = false) : ∀ x ∈ l, p x = false := by
   intro x hx
   cases hp : p x with
@@ -347,6 +367,51 @@ theorem any_false_forall {α} (l : List α) (p : α → Bool) (h : l.any p = fal
   | true =>
     have : l.any p = true := List.any_eq_true.2 ⟨x, hx, hp⟩
     rw [this] at h; cases h
+
+/-- stacking is sorted whenever the decision with ANY scan that is sound ("false ⇒ no live
+document without value") says so -/
+theorem stack_sound_of_scan (scan : Card → List SKey → List Bool → Bool) (desc : Bool) (cs : List SegCol)
+    (hscan : ∀ c ∈ cs, scan c.card c.keys c.alive = false → ∀ k ∈ c.liveKeys, k ≠ none)
+    (hstats : ∀ c ∈ cs, StatsOk c) (hne : ∀ c ∈ cs, c.liveKeys ≠ [])
+    (hsorted : ∀ c ∈ cs, sortedKeys desc c.liveKeys)
+    (hdec : stackDecisionWith scan desc cs = true) :
+    sortedKeys desc ((cs.map SegCol.liveKeys).flatten) := by
+  simp only [stackDecisionWith, Bool.and_eq_true, Bool.not_eq_true'] at hdec
+  obtain ⟨hdis, hnul⟩ := hdec
+  have hsome : ∀ c ∈ cs, ∀ k ∈ c.liveKeys, ∃ v, k = some v ∧ c.stats.1 ≤ v ∧ v ≤ c.stats.2 := by
+    intro c hc k hk
+    have hf := any_false_forall cs _ hnul c hc
+    cases hkv : k with
+    | none => exact absurd hkv (hscan c hc hf k hk)
+    | some v => exact ⟨v, rfl, hstats c hc k (mem_liveDocs _ _ _ hk) v hkv⟩
+  let sr : List (Stats × Run) := cs.map fun c => (c.stats, c.liveKeys.map fun k => (k, 0, 0))
+  have key := stack_sorted desc sr
+    (by
+      intro p hp
+      obtain ⟨c, hc, rfl⟩ := List.mem_map.1 hp
+      simp only [List.pairwise_map]
+      exact hsorted c hc)
+    (by
+      intro p hp
+      obtain ⟨c, hc, rfl⟩ := List.mem_map.1 hp
+      intro x hx
+      obtain ⟨k, hk, rfl⟩ := List.mem_map.1 hx
+      exact hsome c hc k hk)
+    (by
+      intro p hp
+      obtain ⟨c, hc, rfl⟩ := List.mem_map.1 hp
+      obtain ⟨k, hk⟩ := List.exists_mem_of_ne_nil _ (hne c hc)
+      obtain ⟨v, _, h1, h2⟩ := hsome c hc k hk
+      exact Nat.le_trans h1 h2)
+    (by
+      have e0 : sr.map (·.1) = cs.map (·.stats) := by simp only [sr, List.map_map]; rfl
+      rw [e0]; exact hdis)
+  have e : (sr.map (·.2)).flatten = ((cs.map SegCol.liveKeys).flatten).map fun k => (k, 0, 0) := by
+    simp only [sr, List.map_map, List.map_flatten]
+    rfl
+  unfold sortedKeys
+  rw [e, List.pairwise_map] at key
+  exact key
 
 /-- nulls first ascending / last descending in any sorted key sequence -/
 theorem sorted_nulls_asc (ks : List SKey) (h : sortedKeys false ks) (i j : Nat) (hij : i < j)
